@@ -28,6 +28,7 @@ RULE = (
     "after. non-trivial = the library accepted the value, RDATA length >= 1, and a field is at a "
     "boundary value or an embedded name has >= 2 labels (grammar) / the record was accepted after "
     "mutation (arbitrary); distinct by SHA-1 of the case; per-type acceptance counts are required"
+    ' Also: embedded names at/below a decoding origin must be held relative (the grammar records the names it emits); an optional look-up of the type under another class first, each case starting from an empty class cache.'
 )
 ASSUMPTIONS = [
     "vlib/gen/rdata.py is an independent description of each wire format; a grammar-valid wire the "
